@@ -111,14 +111,22 @@ Definition is_none_val (v: value) : bool :=
   match v with VNone => true | VRaw JNull => true | _ => false end.
 
 (* matching of a dataclass instance with the emitted members: every field in class order, under its
-   alias; with omit_none a field whose value is None has no member (it must still conform) *)
-Fixpoint obj_match (chk: field -> value -> json -> bool) (omit: bool)
+   alias; with omit_none a nullable field whose value is None has no member (it must still conform) *)
+(* types the serializer treats as nullable (only for these is the `is not None` test emitted):
+   Any, None, and unions with a direct None member; Literal[None] is not *)
+Definition nullable (t: ty) : bool :=
+  match t with
+  | TAny | TNone => true
+  | TUnion ts => existsb (fun t' => match t' with TNone | TAny => true | _ => false end) ts
+  | _ => false end.
+
+Fixpoint obj_match (chk: field -> value -> json -> bool) (omit: field -> value -> bool)
          (fields: list field) (fs: list (string * value)) (ms: list (string * json)) : bool :=
   match fields, fs with
   | [], [] => match ms with [] => true | _ => false end
   | f :: rf, (nm, fv) :: rfs =>
       String.eqb (f_name f) nm &&
-      (if omit && is_none_val fv then chk f fv JNull && obj_match chk omit rf rfs ms
+      (if omit f fv then chk f fv JNull && obj_match chk omit rf rfs ms
        else match ms with
             | (key, x) :: rms => String.eqb (f_key f) key && chk f fv x && obj_match chk omit rf rfs rms
             | [] => false end)
@@ -207,7 +215,7 @@ Fixpoint enc_ok (fuel: nat) (E: env) (cur base: bool) (t: ty) (v: value) (j: jso
         match find_cls (classes E) c, v, j with
         | Some d, VObj fs, JObj ms =>
             obj_match (fun f fv x => enc_ok n E (nt_mode (c_ntd d) (f_ntover f)) (c_ntd d) (f_ty f) fv x)
-                      (c_omit d) (c_fields d) fs ms
+                      (fun f fv => c_omit d && nullable (f_ty f) && is_none_val fv) (c_fields d) fs ms
         | _, _, _ => false end
     | TTyped c =>
         match find_cls (typeds E) c, v, j with
